@@ -470,7 +470,7 @@ def run(ctx):
             a2 = a.replace("SubWithOverflow(", "Sub(", 1)
             # both measures are taken on the string that was handed to the parser (the valid UTF-8 prefix returned by read_utf8),
             # never on the raw buffer, which may end with the first bytes of a character that was held back
-            len_form = a2.startswith("Sub(len(") and "len(" in a2[8:] and a2.startswith("Sub(len(branch(read_utf8(") or (a2.startswith("Sub(len(") and "read_utf8(" in a2.split(", len(")[0])
+            len_form = a2.startswith("Sub(len(") and "len(" in a2[8:] and (a2.startswith("Sub(len(branch(read_utf8(") or a2.startswith("Sub(len(read_utf8(")) or (a2.startswith("Sub(len(") and "read_utf8(" in a2.split(", len(")[0])
             off_form = a2.startswith("Sub(location_offset(") and "location_offset(" in a2[20:]
             good = len_form or off_form
             r.check(good, "%s/advance=parser-consumption" % fn, c.loc(), "advance(%s): the difference between input and remainder" % a[:70], "advance(%s) is not (length of the string given to the parser) - (length of its remainder): measured on the raw buffer it also skips the bytes of a multi-byte character that read_utf8 held back" % a[:80])
